@@ -30,6 +30,16 @@ CLAIMS = {
         note="Trusted: struct/bytearray semantics as modelled; reference layout tc_spec() in spverif/props/c02.py; CRC mathematics. "
              "Field values assumed within declared widths.",
         technique=TECH + "; must-pass check of the CRC verification"),
+    "C03": dict(
+        text="Static analysis: PusTm.pack (fresh, after setters, cached CRC, both call orders with to_space_packet), Service17Tm and "
+             "the three decoders are abstractly interpreted with a timestamp of symbolic length T; layouts are compared per bit with "
+             "a reference from ECSS-E-ST-70-41C, the length field as a linear form, the CRC by coverage; decoded fields and the "
+             "timestamp/source-data/CRC extents against offsets 13, 13+T, N-2, N; the too-small-length refusal is decided by linear "
+             "entailment with exact slice-clamping axioms and any counter-model is realised as a concrete octet string before it is "
+             "reported. Decides layout/extent/refusal clauses for every T >= 0 and all field values.",
+        note="Trusted: struct/bytearray/slice semantics as modelled; reference layout tm_spec() in spverif/props/c03.py. Assumes "
+             "timestamp_len >= 0 and field values within declared widths.",
+        technique=TECH + "; must-pass check of the CRC verification"),
 }
 
 NOT_CLAIMED = {}
